@@ -103,7 +103,11 @@ class GlobIter(Contract):
 
         def h_is_dir(eng, node, st, args):
             e = entry(st)
-            return Fork([(z3.Bool(pyvc.fresh('is_dir_ok')), Bool(ISDIR(e)), None), (z3.Bool(pyvc.fresh('is_dir_fails')), Outcome('raise', exc='OSError'), unowed)])
+            def not_a_dir(s2):
+                # an entry whose is_dir() fails (a link that cannot be resolved: a loop) is NOT a directory - and still owed to the caller
+                # (fix 04f5455; before it the entry was dropped although it exists)
+                s2.pc.append(z3.Not(ISDIR(e)))
+            return Fork([(z3.Bool(pyvc.fresh('is_dir_ok')), Bool(ISDIR(e)), None), (z3.Bool(pyvc.fresh('is_dir_fails')), Outcome('raise', exc='OSError'), not_a_dir)])
 
         def h_is_symlink(eng, node, st, args):
             e = entry(st)
